@@ -13,9 +13,14 @@ for X in A B; do
   cp $SRC/out/patch$X.diff $D/patch.diff
   cp $SRC/out/demo${X}_test.go $D/demo_test.go
   cp $SRC/out/notes$X.md $D/notes.md 2>/dev/null
-  (tools/confirm_seed.sh $D $PKG suite > $D/confirm.log 2>&1 &)
+  # package directory of the demo: named in the comment at the top of the demo file when it differs from the default
+  DPKG=$(head -15 $D/demo_test.go | grep -oE '(neat(/(genetics|network|math))?|experiment(/utils)?)\b' | head -1); DPKG=${DPKG:-$PKG}
+  PKGLINE=$(grep -m1 '^package ' $D/demo_test.go | awk '{print $2}' | sed 's/_test$//')
+  case $PKGLINE in genetics) DPKG=neat/genetics;; network) DPKG=neat/network;; math) DPKG=neat/math;; neat) DPKG=neat;; experiment) DPKG=experiment;; utils) DPKG=experiment/utils;; esac
+  (tools/confirm_seed.sh $D $DPKG suite > $D/confirm.log 2>&1 &)
 done
 git -C /repo worktree remove --force $SRC 2>/dev/null
+[ -n "${NOCHECK:-}" ] && exit 0
 for X in A B; do
   D=seeded/$P-$(name $X); [ -d $D ] || continue
   echo "##### $D"
